@@ -155,6 +155,12 @@ def export(src):
     def instr(i, is_last_test):
         if isinstance(i, ast.expr):
             return [6] + residual(i, T)
+        if isinstance(i, ast.Expr) and id(i) not in known and not (
+                isinstance(i.value, ast.Compare) and len(i.value.ops) == 1 and isinstance(i.value.ops[0], ast.NotEq)
+                and isinstance(i.value.comparators[0], ast.Constant)
+                and i.value.comparators[0].value == "__scfg_sentinel__"):
+            # a test that decides nothing any more, kept as an expression statement by prune_empty
+            return [6] + residual(i.value, T)
         if id(i) in known:
             if isinstance(i, ast.Pass):
                 return [2, 0]
@@ -201,12 +207,30 @@ def export(src):
         raise Mismatch("unrecognised generated instruction %r" % ast.unparse(i))
 
     rows = [[170], [171] + program]
-    try:
+
+    def encode(tag):
+        out = []
         for name, b in cfg.items():
-            r = [172, int(name), len(b.jump_targets)] + [int(x) for x in b.jump_targets]
+            r = [tag, int(name), len(b.jump_targets)] + [int(x) for x in b.jump_targets]
             for pos, i in enumerate(b.instructions):
                 r += instr(i, pos == len(b.instructions) - 1 and len(b.jump_targets) == 2)
-            rows.append(r)
+            out.append(r)
+        return out
+
+    try:
+        rows += encode(172)
+        status = 0
+        try:
+            cfg.prune_unreachable()
+            cfg.prune_noops()
+            cfg.prune_empty()
+        except IndexError:
+            status = 1
+        if status == 0:
+            rows += encode(173)
+            rows.append([174, 0, int(next(iter(cfg)))])
+        else:
+            rows.append([174, 1, 0])
     except Mismatch as e:
         return None, {"model_mismatch": str(e)}
     text = "#e\n" + "\n".join(" ".join(map(str, r)) for r in rows) + "\n0\n"
